@@ -19,10 +19,20 @@ type DiffCase struct {
 	L []string `json:"l"`
 	R []string `json:"r"`
 	N int      `json:"n"`
+	// Lay is how the two arguments lie in memory: 0 separate slices; 1 where
+	// one is a prefix of the other it is passed as that prefix of the other's
+	// memory (text, text[:k]); 2 the same for a suffix (text, text[k:]); 3
+	// adjacent windows L|R of one buffer.  1 and 2 fall back to 0 when neither
+	// input is a prefix / suffix of the other.
+	Lay int `json:"lay,omitempty"`
 }
 
 func (c DiffCase) String() string {
-	return fmt.Sprintf("L=%s R=%s n=%d", showLines(c.L), showLines(c.R), c.N)
+	lay := ""
+	if c.Lay != 0 {
+		lay = fmt.Sprintf(" memory layout %d (1: shared prefix memory, 2: shared suffix memory, 3: adjacent windows)", c.Lay)
+	}
+	return fmt.Sprintf("L=%s R=%s n=%d%s", showLines(c.L), showLines(c.R), c.N, lay)
 }
 
 // Long lines are written symbolically in cases: "<<L4096x>>" stands for a
@@ -230,6 +240,27 @@ func runC13(c DiffCase, o *vk.Obs) string {
 	if c.R == nil {
 		R = nil
 	}
+	shared := false
+	switch c.Lay {
+	case 1:
+		if len(R) <= len(L) && len(R) > 0 && slices.Equal(L[:len(R)], R) {
+			R, shared = L[:len(R)], true
+		} else if len(L) <= len(R) && len(L) > 0 && slices.Equal(R[:len(L)], L) {
+			L, shared = R[:len(L)], true
+		}
+	case 2:
+		if len(R) <= len(L) && len(R) > 0 && slices.Equal(L[len(L)-len(R):], R) {
+			R, shared = L[len(L)-len(R):], true
+		} else if len(L) <= len(R) && len(L) > 0 && slices.Equal(R[len(R)-len(L):], L) {
+			L, shared = R[len(R)-len(L):], true
+		}
+	case 3:
+		if len(L) > 0 && len(R) > 0 {
+			buf := append(slices.Clone(L), R...)
+			L, R, shared = buf[:len(L)], buf[len(L):], true
+		}
+	}
+	o.ClassIf(shared, "arguments_share_memory")
 	d := mdiff.New(L, R)
 	fail := func(stage, m string) string { return fmt.Sprintf("%s, after %s: %s", c, stage, m) }
 
